@@ -98,6 +98,7 @@ type runState struct {
 	next int
 	// concurrent: several clients translate at once, statements can only be attributed by context
 	concurrent bool
+	bigSeen    int // integer attributes of JSON-stored OTLP spans compared (reach probe)
 }
 
 // RunRead executes a reader scenario and evaluates the oracles of C12 and C15.
@@ -408,6 +409,9 @@ func (st *runState) finish(ri *simcheck.RunInfo, sim *simrt.Sim, t0 time.Time, t
 		}
 		st.checkDocument(r, add)
 	}
+	if st.bigSeen > 0 {
+		ri.Probes["otlp-json-span-int-attribute-compared"] += st.bigSeen
+	}
 	if len(leaked) == 0 && !crashed && !timedOut {
 		// every request has ended and its goroutines are gone: a result set that is still open will never be closed;
 		// it keeps its connection out of the bounded pool, and once the pool is empty read requests wait forever
@@ -508,7 +512,7 @@ func (st *runState) paths() []string {
 func (st *runState) checkDocument(r *reqRec, add func(p, oracle, sig, detail string)) {
 	rq := r.Req
 	if r.Status >= 500 && !r.Cancelled && rq.Result.ErrAtRow == 0 && rq.Result.StallAtRow == 0 && !rq.Result.QueryErr && !rq.NoDB && st.s.ConnErrs == 0 &&
-		rq.Result.NullAtRow == 0 && rq.Result.TraceShape == 0 && !rq.Mutated && r.Panicked == "" {
+		rq.Result.NullAtRow == 0 && (rq.Result.TraceShape == 0 || rq.Result.TraceShape == 5) && !rq.Mutated && r.Panicked == "" {
 		// the database answered every statement of a well-formed request with rows, nothing failed, and the client is told
 		// "server error": the rows are in no document at all
 		served, aborted := 0, false
@@ -621,7 +625,7 @@ func (st *runState) checkDocument(r *reqRec, add func(p, oracle, sig, detail str
 			}
 		}
 		m, ok := doc.(map[string]any)
-		if len(data) != 1 || data[0].Aborted || !ok || rq.Result.TraceShape != 0 {
+		if len(data) != 1 || data[0].Aborted || !ok || (rq.Result.TraceShape != 0 && rq.Result.TraceShape != 5) {
 			return
 		}
 		n := 0
@@ -640,6 +644,35 @@ func (st *runState) checkDocument(r *reqRec, add func(p, oracle, sig, detail str
 						if spm, ok := sp.(map[string]any); ok {
 							ids[fmt.Sprint(spm["spanId"])]++
 							names[fmt.Sprint(spm["name"])]++
+							// integer attributes are rendered without loss (OTLP JSON writes int64 as a string)
+							var idx int
+							if _, err := fmt.Sscanf(fmt.Sprint(spm["name"]), "op%d", &idx); err == nil && rq.Result.TraceShape == 5 && idx%2 == 1 {
+								attrs, _ := spm["attributes"].([]any)
+								for _, a := range attrs {
+									am, _ := a.(map[string]any)
+									if am["key"] != "big" {
+										continue
+									}
+									vm, _ := am["value"].(map[string]any)
+									// (the document carries the number as intValue or, as this server renders every attribute, as text)
+									var raw any
+									for _, k := range []string{"intValue", "stringValue", "doubleValue"} {
+										if vm[k] != nil {
+											raw = vm[k]
+											break
+										}
+									}
+									got := fmt.Sprint(raw)
+									if f, isNum := raw.(float64); isNum {
+										got = strconv.FormatFloat(f, 'f', -1, 64)
+									}
+									st.bigSeen++
+									if want := sqlfake.BigInts[idx%len(sqlfake.BigInts)]; got != want {
+										add("C15", "value-altered", "an integer attribute of a span is not rendered as it was stored: "+rq.Kind,
+											fmt.Sprintf("req%d %s: span op%d attribute big stored as %s, rendered as %s", r.ID, r.Path, idx, want, got))
+									}
+								}
+							}
 						}
 					}
 				}
